@@ -1542,18 +1542,18 @@ class C15B(Prop):
         if not diff or not lines:
             return
         model = LeanDriver(self.driver).run(lines)
-        reported = set()
+        reported: dict = {}
         for start, ln, c in spans:
             for k in range(start, start + ln):
                 if outs[k] != model[k]:
                     fam = _family(c["kind"])
-                    if sum(1 for x in reported if x == fam) < 3:
-                        reported.add(fam) if fam not in reported else None
+                    reported[fam] = reported.get(fam, 0) + 1
+                    if reported[fam] <= 3:
                         res.broken.append(Broken("correspondence", f"{fam} model vs implementation ({c['kind']})",
                                                  f"op={lines[k][:300]!r} impl={outs[k][:300]!r} model={model[k][:300]!r}", case=c))
                     break
-            if len(res.broken) >= 6:
-                break
+        if reported:
+            res.extra["model_vs_impl_disagreements"] = reported
 
     @staticmethod
     def _nontrivial(c: dict, outs: list) -> bool:
@@ -1612,13 +1612,13 @@ class C15B(Prop):
         for a in IB_SPECIAL + (0x4A, 0x4D, 0x9E, 0x41):
             for b in IB_SPECIAL + (0x4A, 0x4D, 0x9E, 0x41):
                 cases.append({"kind": "ib_codec", "d": 13, "s": 162, "t": 8, "r": 0x5E, "data": bytes([a, b]).hex()})
-        cases += [gen_ib_codec(rng) for _ in range(ctx.scale(2500, 40000))]
-        cases += [gen_ib_wire(rng) for _ in range(ctx.scale(5000, 80000))]
-        cases += [gen_ib_rr(rng) for _ in range(ctx.scale(2500, 40000))]
-        cases += [gen_apt_wp(rng) for _ in range(ctx.scale(1500, 20000))]
-        cases += [gen_apt_wd(rng, packets) for _ in range(ctx.scale(2000, 30000))]
-        cases += [gen_apt_ask(rng, packets) for _ in range(ctx.scale(4000, 60000))]
-        cases += gen_t2_cases(rng, ctx.scale(60, 300), ctx.scale(6, 9), ctx.scale(150, 2000))
+        cases += [gen_ib_codec(rng) for _ in range(ctx.scale(12000, 150000))]
+        cases += [gen_ib_wire(rng) for _ in range(ctx.scale(20000, 300000))]
+        cases += [gen_ib_rr(rng) for _ in range(ctx.scale(12000, 150000))]
+        cases += [gen_apt_wp(rng) for _ in range(ctx.scale(4000, 40000))]
+        cases += [gen_apt_wd(rng, packets) for _ in range(ctx.scale(8000, 100000))]
+        cases += [gen_apt_ask(rng, packets) for _ in range(ctx.scale(16000, 200000))]
+        cases += gen_t2_cases(rng, ctx.scale(250, 1500), ctx.scale(6, 9), ctx.scale(600, 8000))
         return cases
 
     def correspondence(self, ctx: Ctx) -> Result:
